@@ -18,7 +18,7 @@ from models import harness
 LEVEL = 'model_checking'
 
 DIMS = [
-    ('pre', ['none', 'blank2', 'comment']),
+    ('pre', ['none', 'blank2', 'comment', 'formfeed', 'formfeed_in_comment']),
     ('decos', [0, 1, 2]),
     ('nest', ['func', 'method', 'cls', 'module', 'asyncfunc']),
     ('opener', ['"""', "'''", 'r"""', 'R"""', 'u"""', '"""Summary', '"""+summary+blank', '"""+blank2']),
@@ -34,6 +34,8 @@ DIMS = [
     ('sig', ['plain', 'multiline', 'annot', 'comment_after_colon', 'multiline_deco']),
 ]
 STYLES = ['auto', 'google', 'freeform']
+ESCAPES = {'esc_t': '\\t', 'esc_n': '\\n', 'esc_x0a': '\\x0a', 'cont': None, 'esc_r': '\\r', 'esc_f': '\\f', 'esc_v': '\\v',
+           'esc_x1c': '\\x1c', 'esc_x85': '\\x85', 'esc_u2028': '\\u2028'}
 
 
 class W(object):
@@ -142,6 +144,12 @@ def build(cfg):
         w.emit('')
     elif cfg['pre'] == 'comment':
         w.emit('# a comment line')
+    elif cfg['pre'] == 'formfeed':
+        # a page separator (form feed on a line of its own): one line to the interpreter
+        w.emit('\x0c')
+        w.emit('# next page')
+    elif cfg['pre'] == 'formfeed_in_comment':
+        w.emit('# page\x0cbreak and a separator\x1c inside a comment')
     if nest == 'module':
         I = ''
     elif nest in ('func', 'asyncfunc'):
@@ -175,6 +183,19 @@ def build(cfg):
         w.emit('')
     else:
         w.emit(I + prefix + q)
+    prose = cfg.get('prose')
+    if prose:
+        # a prose line holding an escape sequence: in a raw docstring it is plain text; in a non-raw one the *value* of the
+        # docstring gains (\\n) or loses (backslash-newline) a line, or holds a character str.splitlines() breaks lines at
+        kind, place = prose
+        if kind == 'cont':
+            w.emit(I + 'Joined \\')
+            w.emit(I + 'with this.')
+        elif place == 'mid':
+            w.emit(I + "Shows 'a%sb' inline." % ESCAPES[kind])
+        else:
+            w.emit(I + 'Ends with' + ESCAPES[kind])
+        w.emit('')
     body = doctest_lines(cfg['fail'], cfg['pos'], cfg['before'])
     layout = cfg['layout']
     prompts_free = []      # line numbers of the first prompt of the (single) freeform doctest
@@ -314,8 +335,14 @@ class LinenoSpec(Spec):
     def final(self, S, hist):
         return len(hist) == len(DIMS)
 
+    def tag(self, sig, style, cfg):
+        return sig
+
+    def config_of(self, hist):
+        return dict(zip([d[0] for d in DIMS], hist))
+
     def run_case(self, hist):
-        cfg = dict(zip([d[0] for d in DIMS], hist))
+        cfg = self.config_of(hist)
         b = build(cfg)
         src = b['source']
         flines = src.split('\n')
@@ -334,16 +361,16 @@ class LinenoSpec(Spec):
                         try:
                             exs = list(core.parse_doctestables(path, style=style, analysis='static'))
                         except Exception as ex:
-                            atoms.append({'sig': 'collect-raises:' + type(ex).__name__, 'msg': repr(ex)})
+                            atoms.append({'sig': self.tag('collect-raises:' + type(ex).__name__, style, cfg), 'msg': repr(ex)})
                             continue
                     exp_first = b['first_prompts'][style]
                     got_first = [e.lineno for e in exs]
                     outcome.append(len(exs))
                     if len(exs) != len(exp_first):
-                        atoms.append({'sig': 'lineno:doctest-count', 'msg': 'style=%s: %d doctests, expected %d' % (style, len(exs), len(exp_first))})
+                        atoms.append({'sig': self.tag('lineno:doctest-count', style, cfg), 'msg': 'style=%s: %d doctests, expected %d' % (style, len(exs), len(exp_first))})
                         continue
                     if got_first != exp_first:
-                        atoms.append({'sig': 'lineno:start',
+                        atoms.append({'sig': self.tag('lineno:start', style, cfg),
                                       'msg': 'style=%s: doctests reported at lines %r, first prompts are at %r (%r)' % (
                                           style, got_first, exp_first, [flines[n - 1] if 0 < n <= len(flines) else None for n in got_first])})
                         continue
@@ -353,7 +380,7 @@ class LinenoSpec(Spec):
                             n = e.lineno + p.line_offset
                             fl = flines[n - 1] if 0 < n <= len(flines) else '<out of range>'
                             if fl.strip() != p.orig_lines[0].strip():
-                                atoms.append({'sig': 'lineno:part-offset',
+                                atoms.append({'sig': self.tag('lineno:part-offset', style, cfg),
                                               'msg': 'style=%s: part %r located at line %d which holds %r' % (style, p.orig_lines[0], n, fl)})
                                 break
                         e.mode = 'native'
@@ -362,22 +389,22 @@ class LinenoSpec(Spec):
                             try:
                                 s = e.run(on_error='return', verbose=0)
                             except Exception as ex:
-                                atoms.append({'sig': 'run-raises:' + type(ex).__name__, 'msg': repr(ex)})
+                                atoms.append({'sig': self.tag('run-raises:' + type(ex).__name__, style, cfg), 'msg': repr(ex)})
                                 continue
                         should_fail = b['fail_line'] is not None and b['fail_in'][style] == idx
                         if should_fail:
                             if not s['failed']:
-                                atoms.append({'sig': 'lineno:expected-failure-did-not-fail', 'msg': 'style=%s' % style})
+                                atoms.append({'sig': self.tag('lineno:expected-failure-did-not-fail', style, cfg), 'msg': 'style=%s' % style})
                                 continue
                             got = e.failed_lineno()
                             if got != b['fail_line']:
-                                atoms.append({'sig': 'lineno:failing-line:' + cfg['fail'],
+                                atoms.append({'sig': self.tag('lineno:failing-line:' + cfg['fail'], style, cfg),
                                               'msg': 'style=%s: failed_lineno()=%r (%r), the failing line is %d (%r)' % (
                                                   style, got, flines[got - 1] if got and 0 < got <= len(flines) else None,
                                                   b['fail_line'], flines[b['fail_line'] - 1])})
                         elif not s['passed']:
                             ei = s['exc_info']
-                            atoms.append({'sig': 'lineno:unexpected-failure', 'msg': 'style=%s: %r' % (style, ei[1] if ei else None)})
+                            atoms.append({'sig': self.tag('lineno:unexpected-failure', style, cfg), 'msg': 'style=%s: %r' % (style, ei[1] if ei else None)})
             finally:
                 harness.forget_modules(modname)
         seen = set()
@@ -390,7 +417,58 @@ class LinenoSpec(Spec):
                 'nontrivial': cfg['fail'] != 'none'}
 
 
+EDIMS = [
+    ('prose', [(k, pl) for k in ESCAPES for pl in ('mid', 'eol') if not (k == 'cont' and pl == 'mid')]),
+    ('opener', ['"""', "'''", 'r"""', '"""Summary']),
+    ('layout', ['free_prose', 'two_groups', 'google', 'google_second']),
+    ('nest', ['func', 'method', 'module']),
+    ('fail', ['exc1', 'want1', 'none']),
+]
+
+
+class EscapeSpec(LinenoSpec):
+    """escape sequences in the prose of a docstring in front of the examples (finding F28: the lines of the docstring *value*
+    are not the lines of the file when the literal is not raw)"""
+    title = 'escape sequences in docstring prose in front of the examples x raw / non-raw literal'
+
+    def __init__(self, name):
+        self.name = name
+        self.max_len = len(EDIMS)
+        self.max_cost = 99
+        self.rule = ('full product of %s, each collected under 3 styles and every collected doctest run; a style under which the '
+                     'docstring yields another number of doctests than the layout defines is not judged here (collection is C07); '
+                     'non-trivial = non-raw literal' % ', '.join('%s(%d)' % (n, len(v)) for n, v in EDIMS))
+
+    def enabled(self, S, hist):
+        return EDIMS[len(hist)][1]
+
+    def cost(self, ev):
+        return 0
+
+    def final(self, S, hist):
+        return len(hist) == len(EDIMS)
+
+    def config_of(self, hist):
+        cfg = {n: v[0] for n, v in DIMS}
+        cfg.update(dict(zip([d[0] for d in EDIMS], hist)))
+        cfg['pos'] = 'last'
+        return cfg
+
+    def tag(self, sig, style, cfg):
+        if sig == 'lineno:doctest-count':
+            return None
+        raw = 'raw' if cfg['opener'][0] in 'rR' else 'nonraw'
+        what = sig.split(':')[1] if sig.startswith('lineno:') else sig
+        return 'escape:%s:%s:%s:%s:%s' % (cfg['prose'][0], cfg['prose'][1], raw, style, what)
+
+    def run_case(self, hist):
+        r = LinenoSpec.run_case(self, hist)
+        r['atoms'] = [a for a in r['atoms'] if a['sig'] is not None]
+        r['nontrivial'] = int(self.config_of(hist)['opener'][0] not in 'rR')
+        return r
+
+
 def specs(tier):
     if tier == 'thorough':
-        return [LinenoSpec('layouts-cost<=4', 4)]
-    return [LinenoSpec('layouts-cost<=3', 3)]
+        return [LinenoSpec('layouts-cost<=4', 4), EscapeSpec('escapes')]
+    return [LinenoSpec('layouts-cost<=3', 3), EscapeSpec('escapes')]
